@@ -24,9 +24,9 @@ CHECKS = {
                 text='Hoist-dense generated programs; every introduced alias must be a single assignment at the documented position of an enclosing function/module body, to a constant strictly identical to each literal it replaces; inlining the aliases must give back the un-hoisted tree; docstrings and __future__ imports keep their place.',
                 note='Baseline for alignment is the same option set with hoisting off.'),
     'C07': dict(cat='exploration', ref='4/C07', technique='differential evaluation of generated literal-only arithmetic expressions before/after folding, in each interpreter',
-                text='Literal-only arithmetic trees in many syntactic contexts; each marked expression is evaluated before and after minification inside the interpreter under test and must agree in type, repr and exception class; output never longer.',
+                text='Literal-only arithmetic trees in many syntactic contexts; each marked expression is evaluated before and after minification inside the interpreter under test and must agree in type, repr and exception class; output never longer. A second family executes modules that capture the value where it is evaluated (defaults, decorators, class bodies, closures) before and after minification with all safe options.',
                 note='Exponents/shifts bounded for memory; eval with empty namespaces.'),
-    'C08': dict(cat='exploration', ref='4/C08', technique='robustness fuzzing: generated modules, corpus, breaking edits x all option sets x 9 interpreters; oracle "returns and output compiles" / "raises what ast.parse raises"',
+    'C08': dict(cat='exploration', ref='4/C08', technique='robustness fuzzing: generated modules, corpus, breaking edits, atheris byte fuzz x all option sets x 9 interpreters; oracle "returns and output compiles" / "raises what ast.parse raises"',
                 text='Every generator of this framework plus corpus files and generated breaking edits, under option sets over all 18 switches and on every installed interpreter: compilable input must return compilable output; unparseable input must raise exactly the class ast.parse raises.',
                 note='compile() of the running interpreter defines validity. Nesting depth bounded below the recursion limit.'),
     'C09': dict(cat='exploration', ref='4/C09', technique='metamorphic: with a planted taint trigger, name-touching options must not change the output; independent identifier multiset comparison',
@@ -38,7 +38,7 @@ CHECKS = {
     'C11': dict(cat='exploration', ref='4/C11', technique='stateful model-based testing (Hypothesis rule-based machine) against fresh-process results; hash-seed sweep; harness-owned thread schedules',
                 text='Histories of API calls reusing caller-owned objects must equal fresh-process results and leave arguments equal to deep copies; outputs across PYTHONHASHSEED values must be byte-identical; threads interleaved at function-call granularity under a generated schedule must equal sequential results.',
                 note='Schedules are owned at python_minifier function-call granularity only.'),
-    'C12': dict(cat='exploration', ref='4/C12', technique='fuzzing with an execution monitor: audit hook + eval/exec wrappers; every evaluated code object must be a closed literal expression',
+    'C12': dict(cat='exploration', ref='4/C12', technique='fuzzing (Hypothesis hostile-literal generator + atheris byte fuzz) under an execution monitor: audit hook + eval/exec wrappers; every evaluated code object must be a closed literal expression',
                 text='Adversarial strings/bytes/f-strings/number literals; while minify runs, every code object evaluated from a python_minifier frame must have no names and no nested code, and no import/open/process/socket audit event may occur.',
                 note='Python-level audit events only.'),
     'C13': dict(cat='exploration', ref='4/C13', technique='model-based differential: CLI bytes vs API result under a flag->kwargs table written from the docs; exhaustive over flag subsets in-process',
